@@ -138,6 +138,14 @@ package plenc
 //@   atcall plenccodec.Codec.Size [C06,C01] @reflect.Type.Kind(@reflect.TypeOf(value)) == 25 && directiface(u64(@reflect.TypeOf(value).data)) ==> loadptr(arg1) == value.data
 //@   atcall plenccodec.Codec.Omit [C06,C01] @reflect.Type.Kind(@reflect.TypeOf(value)) == 25 && directiface(u64(@reflect.TypeOf(value).data)) ==> loadptr(arg1) == value.data
 
+//@ # The structural test mirrors the compiler's rule for pointer-shaped types. That the rule is the compiler's is a fact
+//@ # about the Go implementation, assumed here (trusted), not proved.
+//@ func plenc.isDirectIface
+//@   trusted
+//@   pure
+//@   assigns nothing
+//@   ensures result == directiface(u64(typ.data))
+
 //@ func plenc.*Plenc.Unmarshal
 //@   safety C04 C17
 //@   noglobals[C17]
